@@ -40,8 +40,8 @@ pub fn generate(profile: &str, tier: Tier, seed: u64) -> Scenario {
     match profile {
         "C04" => Scenario::F(f::generate(&mut rng, tier)),
         "C04-encfail" => Scenario::F(f::generate_encfail(&mut rng, tier)),
-        "C05" | "C06" | "C06-fault" | "C16" | "C16-huge" | "C17" | "C08" | "C08-obst" => Scenario::R(r::generate(&mut rng, tier, profile)),
-        "C07" => Scenario::R0(r0::generate(&mut rng, tier)),
+        "C05" | "C06" | "C06-fault" | "C17-fault" | "C16" | "C16-huge" | "C17" | "C08" | "C08-obst" => Scenario::R(r::generate(&mut rng, tier, profile)),
+        "C07" | "C07-fault" => Scenario::R0(r0::generate(&mut rng, tier)),
         "C02" => Scenario::G(g::generate(&mut rng, tier)),
         "C10" => Scenario::W(w::generate(&mut rng, tier, false)),
         "C10-hard" => Scenario::W(w::generate(&mut rng, tier, true)),
@@ -91,7 +91,8 @@ pub fn size(scn: &Scenario) -> usize {
 /// Fault-enumeration variants of a scenario, derived from its fault-free execution.
 pub fn variants(profile: &str, scn: &Scenario, base: &Outcome) -> Vec<Scenario> {
     match (profile, scn) {
-        ("C08", Scenario::R(s)) | ("C06-fault", Scenario::R(s)) => r::fault_variants(s, &base.summary.site_hits).into_iter().map(Scenario::R).collect(),
+        ("C08", Scenario::R(s)) | ("C06-fault", Scenario::R(s)) | ("C17-fault", Scenario::R(s)) => r::fault_variants(s, &base.summary.site_hits).into_iter().map(Scenario::R).collect(),
+        ("C07-fault", Scenario::R0(s)) => r0::fault_variants(s, &base.summary.site_hits).into_iter().map(Scenario::R0).collect(),
         _ => vec![],
     }
 }
